@@ -1408,6 +1408,15 @@ int hawk_rtx_nextio_write (hawk_rtx_t* rtx, hawk_out_type_t out_type, const hawk
 		return 0;
 	}
 
+	/* the handler closes the current stream when it opens the next one.
+	 * write out what is still buffered first so that a failure is reported */
+	n = handler(rtx, HAWK_RIO_CMD_FLUSH, p, HAWK_NULL, 0);
+	if (n <= -1)
+	{
+		flag_handler_failure (rtx);
+		return -1;
+	}
+
 	n = handler(rtx, HAWK_RIO_CMD_NEXT, p, HAWK_NULL, 0);
 	if (n <= -1)
 	{
@@ -1549,6 +1558,7 @@ int hawk_rtx_closeio (hawk_rtx_t* rtx, const hawk_ooch_t* name, const hawk_ooch_
 		{
 			hawk_rio_impl_t handler;
 			hawk_rio_rwcmode_t rwcmode = HAWK_RIO_CMD_CLOSE_FULL;
+			int flush_failed = 0;
 
 			if (opt)
 			{
@@ -1594,6 +1604,19 @@ int hawk_rtx_closeio (hawk_rtx_t* rtx, const hawk_ooch_t* name, const hawk_ooch_
 			handler = rtx->rio.handler[p->type & IO_MASK_CLEAR];
 			if (handler)
 			{
+				if (p->type & (IO_MASK_WRITE | IO_MASK_RDWR))
+				{
+					/* write out what is still buffered first. the handler's
+					 * CLOSE releases the stream whether that works or not and
+					 * has no way to tell. the stream is closed anyway, as
+					 * fclose() does, but close() reports the lost output */
+					if (handler(rtx, HAWK_RIO_CMD_FLUSH, p, HAWK_NULL, 0) <= -1)
+					{
+						flag_handler_failure (rtx);
+						flush_failed = 1;
+					}
+				}
+
 				p->rwcmode = rwcmode;
 				if (handler(rtx, HAWK_RIO_CMD_CLOSE, p, HAWK_NULL, 0) <= -1)
 				{
@@ -1612,7 +1635,7 @@ int hawk_rtx_closeio (hawk_rtx_t* rtx, const hawk_ooch_t* name, const hawk_ooch_
 					 * the internal node. rwcstate keeps
 					 * what has been successfully closed */
 					p->rwcstate = rwcmode;
-					return 0;
+					return flush_failed? -1: 0;
 				}
 			}
 
@@ -1622,7 +1645,7 @@ int hawk_rtx_closeio (hawk_rtx_t* rtx, const hawk_ooch_t* name, const hawk_ooch_
 			hawk_rtx_freemem (rtx, p->name);
 			hawk_rtx_freemem (rtx, p);
 
-			return 0;
+			return flush_failed? -1: 0;
 		}
 
 	skip:
